@@ -412,7 +412,7 @@ def _eval_handle(g, od, invertible, requested):
     return _walk_cfg(g, env, on_block)
 
 
-@rule("R-NAME-SIBLING", ["C03", "C04"])
+@rule("R-NAME-SIBLING", ["C03", "C04", "C18"])
 def r_name_sibling(cx):
     """Op::op classifies the *operator name* (prefix modifiers rotated away by the tokenizer) while
     RawParameters::next classifies a whole definition with is_resource_name(): the two agree only if
@@ -436,3 +436,76 @@ def r_name_sibling(cx):
               else "is_resource_name() does its own text inspection instead of going through operator_name(): a macro "
                    "step with a prefix modifier (`omit_fwd foo:bar`, `< foo:bar`) is not recognised as a macro call by "
                    "RawParameters::next although Op::op resolves it as one", cx.where(f.d["span"]))
+
+
+# ---------------------------------------------------------------------------------------------------------------------
+# R-INV-HANDLED (C03): every elementary operator built by Op::op passes through the inversion handler
+
+@rule("R-INV-HANDLED", ["C03"])
+def r_inv_handled(cx):
+    """In Op::op every operator obtained from a constructor called through a function pointer (user registered
+    operators and built-ins alike) is handed to handle_op_inversion before it is returned: otherwise the `inv`
+    modifier is silently ignored for that class of operators."""
+    f = cx.f.fn("op::Op::op")
+    n = 0
+    handlers = {}
+    for bb, t in f.calls():
+        c = f.callee(t) or ""
+        if c in ("op::Op::handle_op_inversion", "op::Op::handle_inversion"):
+            handlers[bb] = f.arg_terms(bb)[0]
+    for bb, t in f.calls():
+        if "fnptr" not in t:
+            continue
+        n += 1
+        me = f.call_term(t, bb)
+        ok = any(_mentions_term(a, me) for a in handlers.values())
+        cx.ob("R-INV-HANDLED", "Op::op/constructor%d" % (n - 1), ok,
+              "the operator built by the constructor call is passed to handle_op_inversion" if ok else
+              "Op::op returns the operator built by a constructor without passing it through handle_op_inversion: "
+              "`inv` is ignored for these operators", cx.where(t["span"]))
+    cx.count("R-INV-HANDLED", "constructor_calls", n)
+
+
+def _mentions_term(t, needle):
+    hit = []
+
+    def v(x):
+        if x == needle:
+            hit.append(1)
+            return False
+        return not hit
+
+    mir.walk(t, v)
+    return bool(hit)
+
+
+# ---------------------------------------------------------------------------------------------------------------------
+# R-CHASE-CALLS (C04): every typed extraction looks parameters up the same way
+
+@rule("R-CHASE-CALLS", ["C04"])
+def r_chase_calls(cx):
+    """All calls of `chase` in ParsedParameters::new pass (globals, &locals, key) in this order: globals are the
+    RawParameters' globals, locals the tokenized definition. Both are BTreeMap<String, String>, so an exchanged pair
+    type checks - and makes caller values win over step-local ones for that parameter type."""
+    f = cx.f.fn(K.PP + "::new")
+    adt = cx.f.lib["adts"]["op::raw_parameters::RawParameters"]
+    gidx = [x["name"] for x in adt["variants"][0]["fields"]].index("globals")
+    want_g = ("proj", ("proj", ("arg", 1), "deref"), ("f", gidx))
+    n = 0
+    for bb, t in f.calls():
+        c = f.callee(t) or ""
+        if not c.endswith("parsed_parameters::chase"):
+            continue
+        a = f.arg_terms(bb)
+        g = f._deref(a[0], f.end_point(bb))
+        loc = f._deref(a[1], f.end_point(bb))
+        ok_g = mir.strip_refs(g) == want_g
+        ok_l = loc[0] == "call" and isinstance(loc[1], str) and loc[1].endswith("split_into_parameters")
+        n += 1
+        ok = ok_g and ok_l
+        cx.ob("R-CHASE-CALLS", "new/chase%d" % (n - 1), ok,
+              "chase(globals, &locals, key): caller values first, step-local values second (later entries win)" if ok else
+              "this call of chase does not pass (globals, &locals, ..): %s" % (
+                  "its first argument is not the invocation's globals" if not ok_g else
+                  "its second argument is not the tokenized step"), cx.where(t["span"]))
+    cx.count("R-CHASE-CALLS", "chase_calls", n)
